@@ -225,3 +225,5 @@ func verif_C04_pipeline() {
 		verifAssert(string(run(0, cut)) == string(ref), "C04.any-cut-same-replies")
 	}
 }
+
+func verif_C04_line8() { verifLine8Harness("C04") }
